@@ -348,6 +348,7 @@ func VerifC18_Seq(up, i1, i2 int) {
 	for k := range want {
 		c18Same(want[k], got[k])
 	}
+	verifNoGlobalWritesExcept("") // C10: no hidden package-level state is written
 	verifReach("done")
 }
 
